@@ -61,6 +61,41 @@ def failed_dump(sym, fmt, position, attr, rule, maxlen, k, preexisting, any_valu
         sym.check("no-file-created", after is None)
 
 
+BAD_NAMES = {"int": 7, "none": None, "bytes": b"vmlinuz", "tuple": ("a", "b"), "float": 1.5, "bool": True}
+
+
+def tree_table_names(sym, table, kind, preexisting):
+    """a .treeinfo whose only flaw is a name (an INI option name) that is not text - an image name in [images-*], a checksum path - next to
+    proper names: whoever refuses it, and whenever, the destination is left alone"""
+    ti, objs = C06.base_treeinfo(0)
+    d = sym.scratch_dir()
+    path = os.path.join(d, "treeinfo.out")
+    if preexisting:
+        ti.dump(path)
+    before = read_bytes(path)
+    bad = BAD_NAMES[kind]
+    if table == "images":
+        ti.images.images[ti.tree.arch][bad] = "images/x"
+    elif table == "images-xen":
+        ti.images.images["xen"][bad] = "images/x"
+    else:
+        ti.checksums.checksums[bad] = ["sha256", "a" * 64]
+    sym.cover("corrupted")
+    try:
+        ti.dump(path)
+        raised = False
+    except (ValueError, TypeError, AttributeError):
+        raised = True
+    if not raised:
+        return
+    sym.cover("dump-failed")
+    after = read_bytes(path)
+    if preexisting:
+        sym.check("previous-file-intact", after == before)
+    else:
+        sym.check("no-file-created", after is None)
+
+
 def nonfinite_unvalidated(sym, where, value):
     """fields that no validator looks at (sizes of extra files, checksum values, path tables, the rpms / modules tables) may hold a
     number no strict JSON writer accepts: whether the library writes it or refuses it, a refusal leaves the destination alone"""
@@ -135,6 +170,10 @@ def jobs(tier, seed):
         for vi, value in enumerate(("inf", "-inf", "nan")):
             if big or (wi + vi + seed) % 2 == 0:
                 out.append({"harness": "nonfinite_unvalidated", "params": {"where": where, "value": value}})
+    for ti_, table in enumerate(("images", "images-xen", "checksums")):
+        for ki, kind in enumerate(sorted(BAD_NAMES)):
+            if big or (ti_ + ki + seed) % 2 == 0:
+                out.append({"harness": "tree_table_names", "params": {"table": table, "kind": kind, "preexisting": bool((ti_ + ki) % 3)}})
     add("composeinfo", "compose", C06.COMPOSE_FIELDS)
     add("composeinfo", "release", C06.RELEASE_FIELDS)
     add("composeinfo", "base_product", C06.BP_FIELDS)
@@ -157,7 +196,7 @@ def jobs(tier, seed):
 
 
 META = {
-    "expected_covers": {"failed_dump": ["corrupted", "dump-failed"], "nonfinite_unvalidated": ["corrupted"]},
+    "expected_covers": {"failed_dump": ["corrupted", "dump-failed"], "nonfinite_unvalidated": ["corrupted"], "tree_table_names": ["corrupted", "dump-failed"]},
     "assumptions": [
         "the destination is a real file in a scratch directory outside /repo and /verif; open/read/exists are the real system calls; in a third of the jobs "
         "the existing destination has a second hard link (as compose tooling creates them)",
@@ -168,6 +207,7 @@ META = {
         "inside or outside the documented domain: every refusal, for whatever reason, must leave the destination alone",
         "in a quarter of the jobs the destination's file name is 241-255 characters long (NAME_MAX and just below: no longer-named sibling can be created)",
         "in some jobs the existing destination is a symbolic link to the last good copy",
+        "tree_table_names: an image name or a checksum path of a tree that is not text (int, None, bytes, tuple, float, bool) next to proper names; concrete inputs",
         "treeinfo (its own dump method): release, base product, tree, media and variant fields of the C06 base tree",
     ],
 }
